@@ -466,11 +466,11 @@ theorem header_value_is_field_value (name ows1 v ows2 : List UInt8)
 
 /-- the request of RFC 6455 §1.2 with **no** space after the colons (and one with three) is answered with
     the RFC's accept key: the whole server handshake of the model, evaluated by the kernel.
-    These are two instances, not a general statement.  Suggested by the second audit and NOT yet proved: for every
+    These are two instances; the general statement is `server_handshake_general` below (second extension round): for every
     request line with two blanks and every well-formed header list containing `Upgrade: websocket`, a `Connection`
     list including `Upgrade` and `Sec-WebSocket-Key: k` (any name case, any optional whitespace),
     `serverHandshake req = serverResponse k hasProtocol` — by induction over `readHeaders`/`setHeader` from
-    `header_value_is_field_value`.  Until then the composed handshake rests on the correspondence check (`hs` op, 160
+    `header_value_is_field_value`.  Requests that are not well-formed rest on the correspondence check (`hs` op, 160
     generated requests per quick run, python oracle for the well-formed ones). -/
 theorem handshake_without_space_sample :
     serverHandshake ("GET /chat HTTP/1.1\r\nHost:server.example.com\r\nUpgrade:websocket\r\nConnection:Upgrade\r\nSec-WebSocket-Key:dGhlIHNhbXBsZSBub25jZQ==\r\nSec-WebSocket-Version:13\r\n\r\n".toList.map (fun c => UInt8.ofNat c.toNat))
@@ -790,6 +790,28 @@ open AslProofs.WebSocketServerHs in
 theorem server_header_last_line_wins (ls : List ReqLine) (k : List UInt8) :
     getHeader (table ls []) k = (lastField ls k).getD [] ∧ hasHeader (table ls []) k = (lastField ls k).isSome :=
   ⟨getHeader_table ls k, hasHeader_table ls k⟩
+
+open AslProofs.WebSocketServerHs in
+/-- **both handshakes compose for every key, path, host and port** (the general form of `handshake_end_to_end_sample`): the
+    request `connect` writes (`clientRequest`, format regenerated from the source) is a well-formed upgrade request
+    (`clientRequest_eq`: request line `GET path HTTP/1.1`, the seven header lines of the source), so `WebSocketServer::serve` answers
+    it with the 101 response carrying the accept key of exactly that key, with the protocol line, and `connect` accepts that answer.
+    Hypotheses: the path has no blank or LF; `host:port` and the key are non-empty, without LF and without a blank at either end
+    (`ValueOk`; a base64 key from `clientKey` is such a value) -/
+theorem handshake_end_to_end (path host port key : List UInt8)
+    (hp : ∀ x ∈ path, x ≠ 32 ∧ x ≠ 10) (hh : ValueOk (host ++ [58] ++ port)) (hk : ValueOk key) :
+    serverHandshake (clientRequest path host port key) = serverResponse key true ∧
+    clientAccepts (serverHandshake (clientRequest path host port key)) = true := by
+  have h1 : serverHandshake (clientRequest path host port key) = serverResponse key true := by
+    rw [clientRequest_eq]
+    obtain ⟨a, b, c, d⟩ := clientLines_last host port key
+    have := (server_handshake_general [71, 69, 84] path [72, 84, 84, 80, 47, 49, 46, 49, 13] (clientLines host port key) [] key strUpgrade
+      (by decide) hp (by decide) (clientLines_wf host port key hh hk) a b (by decide) c).1
+    rw [this, d]
+  exact ⟨h1, by rw [h1]; exact client_accepts_library_server key true⟩
+
+example : AslProofs.WebSocketServerHs.ValueOk ([104] ++ [58] ++ [56, 48]) ∧ AslProofs.WebSocketServerHs.ValueOk [65, 61] :=
+  ⟨AslProofs.WebSocketServerHs.valueOk_const _ (by decide), AslProofs.WebSocketServerHs.valueOk_const _ (by decide)⟩
 
 section
 open AslProofs.WebSocketServerHs
